@@ -104,11 +104,15 @@ impl BufferedSpyMetricSink {
 impl MetricSink for BufferedSpyMetricSink {
     fn emit(&self, metric: &str) -> io::Result<usize> {
         let mut writer = self.writer.lock().unwrap();
+        #[cfg(cadence_verif)]
+        let _verif = crate::verif::Scope::new("buf.locked", "buf.unlocking", self as *const Self as usize);
         writer.write(metric.as_bytes())
     }
 
     fn flush(&self) -> io::Result<()> {
         let mut writer = self.writer.lock().unwrap();
+        #[cfg(cadence_verif)]
+        let _verif = crate::verif::Scope::new("buf.locked", "buf.unlocking", self as *const Self as usize);
         writer.flush()
     }
 }
